@@ -220,3 +220,15 @@ PROPS["C02"] = dict(
     ],
     e2=["c02"],
 )
+
+PROPS["C08"] = dict(
+    bounds="function level: cip2_largest_first_by with 0..3 (thorough: 4) offered UTxOs, lovelace or an arbitrary asset as the quantity, every ordering and tie pattern, all u64 amounts / totals / per-input fees; "
+           "cip2_random_improve_by with 1..3 offered UTxOs and 1..2 outputs, lovelace quantities below 2^62, EVERY sequence of RNG draws (each draw is enumerated by solver-checked forks), improvement phase on",
+    assumptions=["`by` is the quantity being covered: the coin, or one arbitrary asset (a value holds the asset iff its quantity is positive)",
+                 "fee_for_input and TxInputsBuilder::add_regular_utxo are stubs (arbitrary fee / arbitrary Ok-Err in the largest-first obligation; Ok in the random-improve one); Value arithmetic through the pointwise summaries of valuemodel.py",
+                 "NOT decided: the strategy dispatch and pre-selection in add_inputs_from, the multi-asset composition of several runs, the fee top-up loop, and therefore the end-to-end clause "
+                 "'the builder's actual inputs cover outputs plus the minimum fee' — only its bookkeeping preconditions (distinct members, available set in step, totals = what was added) are",
+                 "amounts >= 2^62 in the improvement phase (2x / 3x of an output's coin) are outside the random-improve bound"],
+    e1=[],
+    e2=["c08", "c08_ri"],
+)
